@@ -323,6 +323,14 @@ def _arr_ep_hpoint(a, ctx, model):
     return [p.coords("klein"), p.coords("poincare"), p.coords("hyperboloid")]
 
 
+def _arr_ep_hpoint_hs(a, ctx):
+    # half-space coordinates: the values must survive integer-valued input in any packaging
+    p = hyperbolic.Point(a, model="halfspace")
+    q = hyperbolic.get_point(a, model="halfspace")
+    return [p.coords("halfspace"), p.coords("klein"), p.coords("poincare"),
+            q.coords("halfspace")]
+
+
 def _arr_ep_get_point(a, ctx):
     p = hyperbolic.get_point(a, model="klein")
     return [p.coords("halfspace")]
@@ -376,12 +384,34 @@ def _arr_ep_elliptic(a, ctx):
     return [data(iso)]
 
 
+def _arr_ep_rep(a, ctx, hyp):
+    # a float generator assigned first, then the generator under test (integer-valued
+    # matrix in any packaging), then images of words through every list interface
+    rep = hyperbolic.HyperbolicRepresentation() if hyp else projective.ProjectiveRepresentation()
+    rot = hyperbolic.Isometry.standard_rotation(0.7) if hyp else \
+        projective.Transformation(np.array([[1.0, 0.25, 0.0], [0.0, 1.0, -0.5], [0.5, 0.0, 2.0]]))
+    rep["a"] = rot
+    rep["b"] = hyperbolic.Isometry(a) if hyp else projective.Transformation(a)
+    words = ["ab", "bA", "abAB", "bab"]
+    out = [data(rep[w]) for w in words]
+    out.append(data(rep.isometries(words) if hyp else rep.transformations(words)))
+    out.append(np.asarray(rep.elements(words).proj_data if hasattr(rep.elements(words), "proj_data")
+                          else rep.elements(words)))
+    o = hyperbolic.Point([0.3, -0.2], model="klein") if hyp else \
+        projective.Point([0.3, -0.2], chart_index=0)
+    img = (rep.isometries(words) if hyp else rep.transformations(words)) @ o
+    out.append(data(img))
+    return out
+
+
 ARRAY_EPS = {
     # name: (domain, function, packagings)
     "hyperbolic.Point(klein)": ("klein", lambda a, c: _arr_ep_hpoint(a, c, "klein"),
                                 ["list", "tuple", "nd32"]),
     "hyperbolic.Point(poincare)": ("klein", lambda a, c: _arr_ep_hpoint(a, c, "poincare"),
                                    ["list", "tuple"]),
+    "hyperbolic.Point(halfspace)": ("hs", lambda a, c: _arr_ep_hpoint_hs(a, c),
+                                    ["list", "tuple", "nd32"]),
     "get_point": ("klein", _arr_ep_get_point, ["list", "tuple"]),
     "projective.Point(chart)": ("affine", _arr_ep_ppoint, ["list", "tuple", "nd32"]),
     "projective_coords/affine_coords": ("affine", _arr_ep_proj_coords, ["list", "tuple"]),
@@ -390,7 +420,17 @@ ARRAY_EPS = {
     "Polygon/Segment": ("tri", _arr_ep_polygon, ["list"]),
     "array_like": ("affine", _arr_ep_array_like, ["list", "tuple"]),
     "elliptic(block)": ("o2", _arr_ep_elliptic, ["nd32list"]),
+    "ProjectiveRepresentation[gen]=M": ("gl3z", lambda a, c: _arr_ep_rep(a, c, False),
+                                        ["list", "listint", "ndint"]),
+    "HyperbolicRepresentation[gen]=M": ("o21z", lambda a, c: _arr_ep_rep(a, c, True),
+                                        ["list", "listint", "ndint"]),
 }
+
+# integer points of O(2,1): coordinate reflections, the swap, and the reflection in (1,1,1)
+_O21Z = [np.diag([1.0, 1.0, -1.0]), np.diag([1.0, -1.0, 1.0]),
+         np.array([[1.0, 0, 0], [0, 0, 1.0], [0, 1.0, 0]]),
+         np.eye(3) - 2 * np.outer([1.0, 1.0, 1.0], [1.0, 1.0, 1.0]) @ np.diag([-1.0, 1.0, 1.0])]
+
 
 
 @st.composite
@@ -410,6 +450,18 @@ def array_case(draw):
             integral = True
         else:
             a = [[draw(fl(-3, 3)) for _ in range(2)] for _ in range(k)]
+        if draw(st.booleans()):
+            a = a[0]
+    elif dom == "hs":
+        k = draw(st.integers(1, 3))
+        n = draw(st.integers(2, 3))
+        if draw(st.booleans()):
+            a = [[float(draw(st.integers(-3, 3))) for _ in range(n - 1)] +
+                 [float(draw(st.integers(1, 4)))] for _ in range(k)]
+            integral = True
+        else:
+            a = [[draw(fl(-3, 3)) for _ in range(n - 1)] + [draw(fl(0.2, 4))]
+                 for _ in range(k)]
         if draw(st.booleans()):
             a = a[0]
     elif dom == "sl2":
@@ -441,10 +493,21 @@ def array_case(draw):
             a.append([r * math.cos(th), r * math.sin(th)])
     elif dom == "o2":
         a = draw(gen.orthogonal_matrix(2))
+    elif dom == "gl3z":
+        a = np.array(draw(gen.unimodular_int_matrix(3, steps=4)), dtype=float).tolist()
+        integral = True
+    elif dom == "o21z":
+        m = np.eye(3)
+        for i in draw(st.lists(st.sampled_from([0, 1, 2, 3]), min_size=1, max_size=4)):
+            m = m @ _O21Z[i]
+        a = m.tolist()
+        integral = True
     how = draw(st.sampled_from(hows + (["listint", "ndint"] if integral and ep in
                                        ("sl2_iso", "projective.Point(chart)",
+                                        "hyperbolic.Point(halfspace)",
                                         "projective_coords/affine_coords", "array_like")
-                                       else [])))
+                                       else [])) if dom not in ("gl3z", "o21z") else
+               st.sampled_from(hows))
     return dict(ep=ep, a=a, how=how)
 
 
@@ -465,7 +528,8 @@ def body_array(case, ctx):
     got = fn(packed, ctx)
     for g in got:
         g = np.asarray(g)
-        if how not in ("listint", "ndint") or ep in ("sl2_iso", "array_like"):
+        if how not in ("listint", "ndint") or ep in ("sl2_iso", "array_like") or \
+                "Representation" in ep:
             ctx.check(g.dtype.kind in "fc", "%s(%s): floating output" % (ep, how),
                       dtype=str(g.dtype))
     _compare(ctx, ep, got, ref, how_cmp)
@@ -721,12 +785,25 @@ def rescale_case(draw):
         else:
             y = [-0.5 if abs(x[0] + 0.5) > 0.1 else 0.5] + [0.0] * (n - 1)
         b.append(y)
+    # exact special positions (zero coefficients in the quadratic for the ideal endpoints,
+    # zero time-like parts of differences): the second point at the model origin, or at the
+    # foot of the perpendicular from the origin onto a coordinate-parallel line; either role
+    special = draw(st.sampled_from(["", "", "", "origin", "foot", "origin-first", "foot-first"]))
+    if special:
+        a = [list(x) for x in a]
+        for i, x in enumerate(a):
+            if special.startswith("origin") and math.hypot(*x) > 0.05:
+                b[i] = [0.0] * n
+            elif special.startswith("foot") and math.hypot(*x[1:]) > 0.05:
+                b[i] = [x[0]] + [0.0] * (n - 1)
+        if special.endswith("first"):
+            a, b = b, a
     sa = [draw(gen.scalars_pm()) for _ in range(cnt)]
     sb = [draw(gen.scalars_pm()) for _ in range(cnt)]
     t = draw(fl(-3.0, 3.0))
     iso_pt = draw(gen.klein_point(n, rmax=0.9))
     return dict(n=n, shape=shape, a=a, b=b, sa=sa, sb=sb, t=t, iso_pt=iso_pt,
-                force=draw(st.booleans()))
+                force=draw(st.booleans()), special=special)
 
 
 def _unordered_pair_dist(X, Y):
@@ -756,7 +833,8 @@ def body_rescale(case, ctx):
     diff = bool(SA.size and (np.unique(np.round(np.concatenate([SA.ravel(), SB.ravel()]),
                                                 12)).size > 1))
     ctx.label("n=%d" % n, "rank=%d" % len(shape), "negative-factor" if neg else "",
-              "units-scaled-differently" if diff else "")
+              "units-scaled-differently" if diff else "",
+              "special=" + case["special"] if case.get("special") else "")
 
     def mk(PA, PB):
         return hyperbolic.Point(PA.copy()), hyperbolic.Point(PB.copy())
@@ -777,8 +855,16 @@ def body_rescale(case, ctx):
     ctx.close("distance unchanged", d1, d0, rtol=1e-7, atol=1e-6 * hs)
     ctx.close("distance equals the closed form", d1, dtrue, rtol=1e-7, atol=1e-6 * hs)
     # segments: ideal endpoints and circle parameters
-    S0 = hyperbolic.Segment(A0, B0)
-    S1 = hyperbolic.Segment(A1, B1)
+    # (built from fresh Point objects: the distance query above has already normalised
+    # A0, B0 in place, and the stored scale is exactly what this law varies)
+    S0 = hyperbolic.Segment(*mk(PA0, PB0))
+    S1 = hyperbolic.Segment(*mk(PA1, PB1))
+    Sraw0 = hyperbolic.Segment(np.stack([PA0, PB0], axis=-2))
+    ctx.small("Segment(array) and Segment(Point, Point): same ideal endpoints",
+              _unordered_pair_dist(np.array(Sraw0.ideal_endpoint_coords("projective")),
+                                   np.array(S0.ideal_endpoint_coords("projective"))) /
+              (1e-7 / (1.0 - rad) / np.maximum(np.sqrt(np.sum((KA - KB) ** 2, axis=-1)), 1e-3)),
+              1.0)
     I0 = np.array(S0.ideal_endpoint_coords("projective"))
     I1 = np.array(S1.ideal_endpoint_coords("projective"))
     sep = np.sqrt(np.sum((KA - KB) ** 2, axis=-1))
